@@ -123,6 +123,7 @@ func (h *H[T]) C11(rc *runCtx) *Violation {
 	sim.Strategy = 1 + sim.Sched.Draw(simrt.NumStrategies-1) // never the sequential reference
 	sim.StickyP = []int{2, 4, 8, 16}[sim.Sched.Draw(4)]
 	drawInner(sim)
+	drawClock(sim)
 	// Inner pre-emption is spent where it matters: inside the pool operations
 	// and the use operations, not inside the harness's own check loops.
 	sim.InnerSites = 1<<sGet | 1<<sPut | 1<<sUse
